@@ -235,6 +235,7 @@ def joinBeginApply (j : JoinOp) (lhs rhs : Rel) : Except Err BOp := do
       if !(common.subset rhs.columns) then throw .column
       pure j
   if j.pred.asTrivial == some true then
+    if lhs.engine != rhs.engine && (lhs.isJoinIdentity || rhs.isJoinIdentity) then throw .engine
     if lhs.isJoinIdentity then return .ignoreOne true
     if rhs.isJoinIdentity then return .ignoreOne false
   return .join op
